@@ -630,8 +630,9 @@ pub fn directed() -> Vec<Doc> {
     }
     // assets
     for format in super::assets::FORMATS {
-        // (the texture builder has five variants, one per pixel format family)
-        let aseeds: &[u64] = if *format == "tex" { &[1, 2, 3, 4, 5] } else { &[1, 2] };
+        // (the texture builder has five variants, one per pixel format family, each with block-aligned
+        // and with arbitrary dimensions)
+        let aseeds: &[u64] = if *format == "tex" { &[1, 2, 3, 4, 5, 6, 7, 8, 9, 10] } else { &[1, 2] };
         for &aseed in aseeds {
             let bytes = super::assets::build(format, aseed);
             let fields = super::assets::fields(format, aseed);
